@@ -306,7 +306,7 @@ def run(tier):
         c.set("crash_states_in_model", len(V.tlc_json_lines(res["out"], "CRASH")))
     c.set("exhaustive", True)
     for bug, inv in (("split-commit", "ReplayConsistent"), ("scan-from-tip", "UnverifiedPickedUp")):
-        res = V.tlc(PID, "MC_CrashRecovery", mc_cfg("bug_%s.cfg" % bug, RBug='"%s"' % bug), workers=2, timeout=900, coverage=False,
+        res = V.tlc(PID, "MC_CrashRecovery", mc_cfg("bug_%s.cfg" % bug, RBug='"%s"' % bug), workers=2, timeout=1700, coverage=False,
                     tag="bug_" + bug, xmx="4g")
         if res["violated"] != inv:
             raise V.ToolError("oracle self-test failed: RBug=%s gives %s, expected a violation of %s" % (bug, res["violated"], inv))
